@@ -66,6 +66,7 @@ type Obligation struct {
 	Inputs  []modelProbe
 	Comment string
 	scriptText string
+	Candidate  string // quantifier-free weakening that has a model (to be confirmed by replay)
 }
 
 type modelProbe struct {
@@ -89,6 +90,7 @@ type Unit struct {
 	probes []modelProbe
 	usedLemmas map[string]bool
 	nonNil map[string]bool
+	concrete bool // ground evaluation: opaque spec functions are plain definitions
 	sched [][2]string // (k, err) result terms of calls on abstract streams
 }
 
